@@ -8,15 +8,24 @@ package cache
 // CD / DO / AD bits.
 
 import (
+	"context"
 	"encoding/json"
 	"fmt"
+	"io"
+	"math/rand"
 	"net"
 	"os"
+	"strings"
 	"testing"
 	"time"
 
 	"github.com/miekg/dns"
+	"github.com/semihalev/sdns/config"
+	"github.com/semihalev/sdns/internal/dnsutil"
+	"github.com/semihalev/sdns/internal/mock"
 	"github.com/semihalev/sdns/middleware"
+	"github.com/semihalev/sdns/middleware/edns"
+	"github.com/semihalev/zlog/v2"
 )
 
 func TestVerifC01CacheAD(t *testing.T) {
@@ -84,5 +93,152 @@ func TestVerifC01CacheAD(t *testing.T) {
 				}
 			}
 		}
+	}
+}
+
+// ---- alias chains composed from several entries, through edns + cache ----
+
+type vC01MissStub struct{ hit bool }
+
+func (s *vC01MissStub) Name() string { return "verifmiss" }
+func (s *vC01MissStub) ServeDNS(ctx context.Context, ch *middleware.Chain) {
+	s.hit = true
+	_, req := ch.Materialize(ctx)
+	if req != nil {
+		_ = ch.Writer.WriteMsg(dnsutil.SetRcode(req, dns.RcodeServerFailure, false))
+	}
+}
+
+// internal chase of the decoded path: served by the same cache, never by an upstream
+type vC01SelfQueryer struct{ c *Cache }
+
+func (q vC01SelfQueryer) Query(ctx context.Context, req *dns.Msg) (*dns.Msg, error) {
+	stub := &vC01MissStub{}
+	ch := middleware.NewChain([]middleware.Handler{q.c, stub})
+	w := mock.NewWriter("tcp", "127.0.0.255:0")
+	ch.Reset(w, req)
+	ch.Next(middleware.MarkInternal(ctx))
+	if stub.hit || w.Msg() == nil {
+		return nil, middleware.ErrNoResponse
+	}
+	return w.Msg(), nil
+}
+
+func TestVerifC01CacheChain(t *testing.T) {
+	p := os.Getenv("VERIF_OUT")
+	if p == "" {
+		t.Skip("VERIF_OUT not set")
+	}
+	f, err := os.Create(p)
+	if err != nil {
+		t.Fatal(err)
+	}
+	defer f.Close()
+	seed := int64(1)
+	fmt.Sscan(os.Getenv("VERIF_SEED"), &seed)
+	n := 300
+	fmt.Sscan(os.Getenv("VERIF_N"), &n)
+	r := rand.New(rand.NewSource(seed*613 + 11))
+	b := func(x bool) string {
+		if x {
+			return "true"
+		}
+		return "false"
+	}
+	logger := zlog.NewStructured()
+	logger.SetWriter(zlog.NewTerminalWriter(io.Discard))
+	logger.SetLevel(zlog.LevelFatal)
+	zlog.SetDefault(logger)
+	for i := 0; i < n; i++ {
+		cfg := new(config.Config)
+		cfg.CacheSize = 1024
+		cfg.Expire = 600
+		cfg.DNSSEC = "on"
+		c := New(cfg)
+		c.SetQueryer(vC01SelfQueryer{c: c})
+		e := edns.New(cfg)
+		hopsN := 1 + r.Intn(3)
+		signed := r.Intn(2) == 0
+		var hops []bool
+		var hopsCoq []string
+		do, cd, ad, wire := r.Intn(2) == 0, r.Intn(5) == 0, r.Intn(3) == 0, r.Intn(2) == 0
+		for h := 0; h <= hopsN; h++ {
+			name := fmt.Sprintf("h%d.chain%d.c01.test.", h, i)
+			v := r.Intn(3) != 0
+			hops = append(hops, v)
+			hopsCoq = append(hopsCoq, b(v))
+			q := new(dns.Msg)
+			q.SetQuestion(name, dns.TypeA)
+			m := new(dns.Msg)
+			m.SetReply(q)
+			m.RecursionAvailable = true
+			m.AuthenticatedData = v
+			var rr dns.RR
+			if h < hopsN {
+				rr = &dns.CNAME{Hdr: dns.RR_Header{Name: name, Rrtype: dns.TypeCNAME, Class: dns.ClassINET, Ttl: 300}, Target: fmt.Sprintf("h%d.chain%d.c01.test.", h+1, i)}
+			} else {
+				rr = &dns.A{Hdr: dns.RR_Header{Name: name, Rrtype: dns.TypeA, Class: dns.ClassINET, Ttl: 300}, A: net.IPv4(192, 0, 2, byte(h+1)).To4()}
+			}
+			m.Answer = []dns.RR{rr}
+			if signed && v {
+				m.Answer = append(m.Answer, &dns.RRSIG{Hdr: dns.RR_Header{Name: name, Rrtype: dns.TypeRRSIG, Class: dns.ClassINET, Ttl: 300}, TypeCovered: rr.Header().Rrtype, Algorithm: 13, Labels: 4, OrigTtl: 300,
+					Expiration: 2114380800, Inception: 1767225600, KeyTag: 7, SignerName: "c01.test.", Signature: "ZmFrZXNpZ25hdHVyZQ=="})
+			}
+			for _, keyCD := range []bool{false, true} {
+				mm := m.Copy()
+				mm.CheckingDisabled = keyCD
+				c.store.SetFromResponseWithKey(CacheKey{Question: m.Question[0], CD: keyCD}.Hash(), mm, time.Time{}, 0)
+			}
+		}
+		req := new(dns.Msg)
+		req.SetQuestion(fmt.Sprintf("h0.chain%d.c01.test.", i), dns.TypeA)
+		req.RecursionDesired = true
+		req.CheckingDisabled, req.AuthenticatedData = cd, ad
+		req.SetEdns0(1232, do)
+		stub := &vC01MissStub{}
+		ch := middleware.NewChain([]middleware.Handler{e, c, stub})
+		w := mock.NewWriter("udp", "198.51.100.77:40000")
+		path := "msg"
+		if wire {
+			raw, _ := req.Pack()
+			wr := new(middleware.Request)
+			if wr.ParseWire(raw, time.Now(), nil) {
+				ch.ResetWire(w, wr)
+				ch.AllowDirectPack()
+				path = "wire-born"
+			} else {
+				ch.Reset(w, req)
+			}
+		} else {
+			ch.Reset(w, req)
+			if r.Intn(2) == 0 {
+				ch.AllowDirectPack()
+				path = "msg-directpack"
+			}
+		}
+		before := wireChaseServed.Value()
+		ch.Next(context.Background())
+		m := w.Msg()
+		c.Stop()
+		if stub.hit || m == nil || m.Rcode != dns.RcodeSuccess {
+			continue
+		}
+		composed := "single"
+		if wireChaseServed.Value() != before {
+			composed = "wire-chase"
+		}
+		sawTarget := false
+		for _, rr := range m.Answer {
+			if rr.Header().Rrtype == dns.TypeA {
+				sawTarget = true
+			}
+		}
+		if !sawTarget {
+			continue // only the first hop was served: its own verdict applies, covered by the entry cases
+		}
+		rec, _ := json.Marshal(map[string]any{"k": "chain-" + path + "-" + composed, "nontrivial": true,
+			"coq":  fmt.Sprintf("CaseChainAD (mk_creq %s %s %s) [%s] %s", b(cd), b(do), b(ad), strings.Join(hopsCoq, ";"), b(m.AuthenticatedData)),
+			"desc": map[string]any{"hops_validated": hops, "signed": signed, "do": do, "cd": cd, "ad": ad, "path": path, "composed": composed, "client_sees_ad": m.AuthenticatedData, "answer": fmt.Sprint(m.Answer)}})
+		f.Write(append(rec, '\n'))
 	}
 }
